@@ -1062,6 +1062,58 @@ func btoi(b bool) int {
 	return 0
 }
 
+// RVal is one concrete value a merged value can have, with the condition under which it has it.
+type RVal struct {
+	V ssa.Value
+	C Bits
+}
+
+// ResolveWithConds is ResolveUnder that also returns, per concrete value, the condition of the ways on which the merged
+// value is that one (several ways to the same value are united).
+func (cs *CondSpace) ResolveWithConds(v ssa.Value, cond Bits) []RVal {
+	var out []RVal
+	var walk func(v ssa.Value, cond Bits, depth int)
+	walk = func(v ssa.Value, cond Bits, depth int) {
+		v = stripConv(v)
+		if cvals, cconds, isCell := cs.cellEdges(v); isCell && depth <= 6 {
+			for ci, cv := range cvals {
+				if c2 := and(cond, cconds[ci]); cs.Satisfiable(c2) {
+					walk(cv, c2, depth+1)
+				}
+			}
+			return
+		}
+		if cv := cellValue(v); cv != v {
+			v = cv
+		}
+		ph, ok := v.(*ssa.Phi)
+		if !ok || cs.backTo[ph.Block()] || depth > 6 {
+			for i := range out {
+				if out[i].V == v {
+					out[i].C = or(out[i].C, cond)
+					return
+				}
+			}
+			out = append(out, RVal{v, cond})
+			return
+		}
+		blk := ph.Block()
+		for i, pred := range blk.Preds {
+			edge := cs.False()
+			for si, sb := range pred.Succs {
+				if sb == blk {
+					edge = or(edge, cs.EdgeCond(pred, si))
+				}
+			}
+			if c2 := and(cond, edge); cs.Satisfiable(c2) {
+				walk(ph.Edges[i], c2, depth+1)
+			}
+		}
+	}
+	walk(v, cond, 0)
+	return out
+}
+
 // certainlyNonNil: v is the result of an error constructor or a fresh allocation.
 func certainlyNonNil(v ssa.Value) bool {
 	v = stripConv(v)
